@@ -12,7 +12,7 @@ NOTE_E = ("Engine E runs the unmodified mangos code under the real Go scheduler 
 
 claimed = {
  "C16": ("stateless model checking of the rewritten real code over an in-memory network: exhaustive enumeration of hostile handshakes, length fields, truncation points and protocol-level bodies with a reference parser per pattern, plus schedule exploration of a stalled handshake beside a good peer",
-         "transport/tcp and transport/conn.go run unmodified in logic over the harness' in-memory net (only the import is redirected): every single-byte deviation of the 8-byte header, every truncation (0..8 bytes then EOF/reset/silence), garbage after a valid header; length fields {-1, min, 0, 1, limit-1, limit, limit+1, 2^31, 2^32, max} x {no, short, exact body} x MaxRecvSize {default, 1, 1024, 0}: delivered iff well-formed and in limit, otherwise dropped at once with zero further bytes read and no allocation of the announced size; every truncation point of a frame; every body of length <= 4 (quick) / 6 (thorough) over {00,01,7f,80,ff} into every receiving socket kind compared with a reference parser; a well-behaved control peer is served throughout.",
+         "transport/tcp and transport/conn.go run unmodified in logic over the harness' in-memory net (only the import is redirected): every single-byte deviation of the 8-byte header, every truncation (0..8 bytes then EOF/reset/silence), garbage after a valid header; length fields {-1, min, 0, 1, limit-1, limit, limit+1, 2^31, 2^32, max} x {no, short, exact body} x MaxRecvSize {default, 1, 1024, 0}: delivered iff well-formed and in limit, otherwise dropped at once with zero further bytes read and no allocation of the announced size; every truncation point of a frame; every body of length <= 4 (quick) / 6 (thorough) over {00,01,7f,80,ff} into every receiving socket kind compared with a reference parser; a well-behaved control peer is served throughout; the same on the IPC pipe (vipc). Engine E repeats handshake truncations/stalls, the length-field grid (MaxRecvSize default/1024/1/0), frame truncation, IPC type bytes, WebSocket frame and upgrade abuse (text, fragmented, oversized, unmasked, 2^63 lengths, ping flood, wrong subprotocol) and protocol bodies against real tcp, tls+tcp, ipc, ws, wss sockets with raw hostile peers, each case in a worker subprocess, with a control peer exchanging messages throughout.",
          "DESIGN.md §6 C16"),
  "C20": ("bounded-exhaustive enumeration on the built macat binary (engine E): all 1-byte and all 2-byte bodies, escape alphabet bodies, msgpack length boundaries x formats x receiving patterns with independent decoders; data/file x count x sending pattern; option-conflict grid; duration units",
          "macat is run as a subprocess against harness sockets: every 1-byte body (and every 2-byte body on pull), bodies over the escape alphabet, lengths {0,1,254..257,65534..65537} in raw/ascii/quoted/msgpack on 11 receiving variants, each followed by a sentinel record and decoded by independent decoders; --data/--file bytes arrive exactly --count times unchanged for each sending pattern; every conflicting/missing option combination is rejected without connecting; bare-integer durations mean seconds (lower bound asserted).",
@@ -24,7 +24,7 @@ claimed = {
          "Every Clone/Free/release/NewMessage of every message is observed by a ledger; per receiving kind the application keeps messages across further traffic of other sizes (buffers of every pool class are released, poisoned and reused) and re-checks, overwrites and frees them; per sending kind the outcomes success/timeout/closed/no-peers/best-effort are provoked and a failed Send must leave the message intact with exactly one owner; an application-cloned message must survive Send; NewMessage/Dup/MakeUnique shapes over the pool-class boundary sizes; PUB, BUS, STAR, SURVEY fan-out over inproc and REQ's retained request under loss/retry/reply histories are explored with the ledger on.",
          "DESIGN.md §6 C17"),
  "C19": ("bounded-exhaustive enumeration of option name x value x object kind x connection state on the unmodified code over all transports (engine E), each case in a worker subprocess with replay confirmation",
-         "41 option names (documented, transport specific, arbitrary) x 23 values (wrong types, nil, negative, zero, boundary, huge) on all 24 sockets, 5 context kinds, dialers and listeners of 6 transports and attached pipes, before and after connecting: no panic, no hang, unsupported name => ErrBadOption, wrong type/out of range => ErrBadValue, Get returns what Set accepted, socket options inherited by later dialers/listeners and (where the pattern provides it) contexts, accepted zero durations mean no limit, queue resizes on connected idle/loaded sockets never detach the peer and traffic still flows, unsupported operations and Device misuse give the designated error without side effect.",
+         "41 option names (documented, transport specific, arbitrary) x 23 values (wrong types, nil, negative, zero, boundary, huge) on all 24 sockets, 5 context kinds, dialers and listeners of 6 transports and attached pipes, before and after connecting: no panic, no hang, unsupported name => ErrBadOption, wrong type/out of range => ErrBadValue, Get returns what Set accepted, socket options inherited by later dialers/listeners and (where the pattern provides it) contexts, accepted zero durations mean no limit, queue resizes on connected idle/loaded sockets never detach the peer and traffic still flows, unsupported operations and Device misuse give the designated error without side effect (after a refused Device every message a peer sends must still reach the application: a forwarder left running would steal them). Engine S adds: the receive limit set through socket / endpoint before / after start (also lifted again by an accepted zero) is obeyed by the next connection of the real tcp and IPC pipes over the in-memory network.",
          "DESIGN.md §6 C19"),
  "C10": ("stateless model checking of the rewritten real code: deviation-bounded exploration of Close against blocked Send/Recv on all 24 socket kinds and contexts, exhaustive listener/dialer/pipe/hook histories ending in socket Close, each followed by a resource census (threads by creation site, timers, connections, listening addresses, pipe ids, pipe lists)",
          "For every socket constructor (and context) calls are blocked in Recv and Send, Close runs concurrently and is placed at every scheduling point within the bound: every blocked call returns the closed error, Close returns, later Send/Recv/Dial/Listen/OpenContext/Close fail promptly; histories over listen, async dial (ok/refused), peer connect, hook-close, peer drop, close of listener/dialer/pipe, clock advance end with socket Close, an hour of virtual time and a census that must be empty.",
@@ -76,7 +76,7 @@ claimed.update({
          "For all 12 protocol numbers (24 socket types) and both roles the first 8 bytes mangos writes are compared with the SP header; every single-byte deviation of the peer header (8x255) and every wrong-but-well-formed protocol number must be refused while a following good peer is accepted; frames mangos writes are parsed by an independent codec (8-byte BE length, 0x01 on IPC, header||body) and codec-written frames, split at every prefix position, must be delivered intact; WebSocket subprotocol negotiation and one-binary-frame-per-message are checked with a hand-written RFC 6455 endpoint.",
          "DESIGN.md §6 C15"),
 })
-ENGINE_OF = {"C01": "S+E", "C15": "S+E", "C19": "E", "C20": "E"}
+ENGINE_OF = {"C01": "S+E", "C15": "S+E", "C16": "S+E", "C19": "S+E", "C20": "E"}
 not_applicable = {}
 ALL = [f"C{i:02d}" for i in range(1, 21)]
 for pid in ALL:
